@@ -36,9 +36,11 @@ theorem C09_touch_in_use (s : State) (a : Act) (k : Nat) (ht : touchedBy s a = s
   all_goals cases ht
 
 /-- **Least recently used first**: the guards offered to the eviction callback are the first evictable entries
-in last-touch order; if A and B are both evictable, A was touched before B (in particular: every use of A
-ended before the last use of B began) and B is offered, then A is offered too — an unlocked entry is never
-passed over in favour of one that was used later — and the offered keys come in last-touch order. -/
+in last-touch order; if A and B are both evictable, A was touched before B and B is offered, then A is offered too — an
+unlocked entry is never passed over in favour of one that was touched later — and the offered keys come in last-touch order.
+(The step from the property's "every use of A ended before the last use of B began" to "A was touched before B" is
+`C09_touch_in_use` — touches happen only at the lookup of a lock call and at the release of a valueless guard — plus the reading
+that guards obtained in bulk (stream, expiry, callback) are not uses that refresh recency; it is not a theorem of its own.) -/
 theorem C09_lru_first (as : List Act) (h k n : Nat) (hids cands : List Nat) (A B : Nat) :
     let g := runG (GState.init .lru) as
     g.s.freshList (h :: hids) = true → g.s.order.length ≤ hids.length → 1 ≤ n →
